@@ -150,3 +150,32 @@ def _make_writable(root: str):
                 os.chmod(os.path.join(d, x), 0o700)
             except OSError:
                 pass
+
+
+def _chfix_hash_contract():
+    """Tool work-around (CrossHair 0.0.110; worker process only, no-op elsewhere) - the same as harness/_C15_lib's.
+
+    CrossHair replaces builtin `hash` by `crosshair.libimpl.builtinslib._hash`, whose docstring carries a PEP 316
+    contract; under analysis kind PEP316 every traced `hash(x)` (e.g. pathlib.PurePath.__hash__, hit by the dicts of
+    paths in files_condition.literal) may be "short-circuited": replaced by a FREE symbolic int.  A C-level dict
+    operation then sees a __hash__ that does not return an int (TypeError: __hash__ method should return an
+    integer -> a fake INTERNAL_ERROR that does not reproduce) and look-ups fork without bound.  The work-around makes
+    CrossHair always execute the body of `_hash` (the real hash): strictly more precise, nothing is assumed."""
+    try:
+        import crosshair.core as core
+    except ImportError:
+        return
+    orig = core.consider_shortcircuit
+    if getattr(orig, '_c15_patched', False) or getattr(orig, '_c18_patched', False):
+        return
+
+    def consider_shortcircuit(fn, *a, **kw):
+        if getattr(fn, '__name__', '') == '_hash' and kw.get('allow_interpretation', True):
+            return None
+        return orig(fn, *a, **kw)
+
+    consider_shortcircuit._c18_patched = True
+    core.consider_shortcircuit = consider_shortcircuit
+
+
+_chfix_hash_contract()
